@@ -46,4 +46,5 @@ replay = histcheck.make_replay(HOOKS, configs=CONFIGS5)
 
 
 def shards(tier):
-    return histcheck.std_shards(tier, 700, 6000, bulk=2 if tier == "thorough" else 0)
+    # plus one shard of a few large data sets (110-330 points: storage positions beyond 256, where small-int identity ends)
+    return histcheck.std_shards(tier, 700, 6000, bulk=2 if tier == "thorough" else 0) + [{"n": 8 if tier == "quick" else 60, "bulk": True, "bulk_points": 330, "max_ops": 25}]
